@@ -1,7 +1,25 @@
 """Property table (kept apart from plan.py so that plan.py stays small)."""
 from .plan import register
 
-register('C07', level='proof',
-         sidecars=['t0'],
+BASE = ['elements']
+
+register('C02', level='other', sidecars=BASE + ['components', 'periodic', 'transformers', 'solution'],
          trusted=['z3', 'cpython', 'numpy-scalar'],
-         explanation='work in progress')
+         explanation='contracts on the component->branch translators (exact immittances and source phasors at every w, frequency gating), on '
+                     'the DC/complex solution wrappers (peak vs RMS scaling, real part at w=0) and on the element value helpers; the network '
+                     'solver underneath is covered under C01')
+register('C05', level='other', sidecars=BASE + ['solution'],
+         trusted=['z3', 'cpython', 'numpy-scalar'],
+         explanation='contracts on get_power of the network, DC and complex solutions plus the loop-free sign lemmas for R, L, C element laws')
+register('C07', level='proof', sidecars=BASE + ['components', 'periodic', 'transformers'],
+         trusted=['z3', 'cpython', 'numpy-scalar'],
+         explanation='one contract per translator and constructor, dispatch table contract')
+register('C08', level='proof', sidecars=['periodic'],
+         trusted=['z3', 'cpython', 'numpy-scalar'],
+         explanation='closed forms, a/b/c forms, lookup, time functions on open pieces')
+register('C17', level='proof', sidecars=BASE + ['components', 'loaders', 'dump_load'],
+         trusted=['z3', 'cpython', 'numpy-scalar'],
+         explanation='loader table, to_complex, load_network, dump_load round trips under the assumed json/yaml contract')
+register('C19', level='proof', sidecars=BASE + ['components', 'periodic', 'loaders', 'dump_load'],
+         trusted=['z3', 'cpython', 'numpy-scalar'],
+         explanation='raises-iff contracts on constructors and loaders')
